@@ -130,6 +130,51 @@ class GenModel:
                 break
         return e
 
+    def inline_value(self, f, e, subst=None, depth=0):
+        """The expression `e` of function `f` as one tree over the caller's names: single-definition locals are replaced by their
+        initialiser, a local string built by `s = a; s += b; ...` in straight-line code by a + b + ..., and a call of an
+        in-repo helper that only computes and returns a value by that value with the arguments substituted."""
+        subst = subst or {}
+        if e is None or depth > 6:
+            return e
+        e = strip_casts(strip_copies(strip_casts(e)))
+        if e is None:
+            return e
+        k = e.get('k')
+        if k == 'ref' and e.get('dk') in ('var', 'param') and e.get('d') in subst:
+            return subst[e['d']]
+        if k == 'ref' and e.get('dk') == 'var':
+            ds = self.defs(f).get(e.get('d'), [])
+            inits = [x for x in ds if x[0] == 'init' and x[1] is not None]
+            comps = [x for x in ds if x[0] == 'compound' and (x[1].get('callee') or '').endswith('operator+=')]
+            if len(inits) == 1 and len(inits) + len(comps) == len(ds):
+                straight = not any(st['k'] in ('if', 'for', 'while', 'do', 'rangefor', 'switch', 'goto', 'try') for st in walk_stmts(f['body'])) if comps else True
+                if straight:
+                    acc = self.inline_value(f, inits[0][1], subst, depth + 1)
+                    for c in sorted(comps, key=lambda x: tuple(x[1].get('loc') or (0, 0))):
+                        acc = {'k': 'call', 'ck': 'operator', 'op': '+', 'callee': 'std::operator+', 'obj': None, 'loc': c[1].get('loc'),
+                               'args': [acc, self.inline_value(f, c[1]['args'][0], subst, depth + 1)], 'cty': 'std::string'}
+                    return acc
+            return e
+        if k == 'call' and e.get('callee_in_repo') and e.get('obj') is None and e.get('ck') != 'operator':
+            tg = [g for g in self.facts.functions if g['q'] == e.get('callee') and g.get('body') is not None and g['tmpl'] in ('none', 'inst') and
+                  len(g.get('params', [])) == len(e.get('args', []))]
+            if len(tg) == 1:
+                g = tg[0]
+                rets = [st for st in walk_stmts(g['body']) if st['k'] == 'return' and st.get('e') is not None]
+                branching = any(st['k'] in ('if', 'for', 'while', 'do', 'rangefor', 'switch', 'goto', 'try') for st in walk_stmts(g['body']))
+                effects = any(x.get('k') == 'assign' and strip_casts(x['l']).get('dk') != 'var' for x in walk_all_exprs(g['body']))
+                if len(rets) == 1 and not branching and not effects:
+                    sub2 = {p['d']: self.inline_value(f, a, subst, depth + 1) for p, a in zip(g['params'], e['args'])}
+                    return self.inline_value(g, rets[0]['e'], sub2, depth + 1)
+        out = dict(e)
+        for key in ('obj', 'l', 'r', 'e', 'base', 'c', 't'):
+            if isinstance(e.get(key), dict):
+                out[key] = self.inline_value(f, e[key], subst, depth + 1)
+        if isinstance(e.get('args'), list):
+            out['args'] = [self.inline_value(f, a, subst, depth + 1) if isinstance(a, dict) else a for a in e['args']]
+        return out
+
     def same_var(self, a, b):
         a, b = strip_casts(a), strip_casts(b)
         return a is not None and b is not None and a.get('k') == 'ref' and b.get('k') == 'ref' and \
